@@ -538,3 +538,40 @@ func TestReaderRead(t *testing.T) {
 		}
 	}
 }
+
+// The cross-site lemma behind C12 over HTTP, which the contracts take "up to path.Join":
+// for an absolute base path b (canonical or not) and a well-formed name /svc/M, what the
+// client requests, trim_suffix(path.Join("/", b), "/") + "/" + "svc/M", is the route the
+// server registers, path.Join(b, "svc/M"); and a name that is not well-formed (empty,
+// "." or ".." segments, trailing slash) is never mapped onto such a route.
+func TestClientAndServerPathsAgree(t *testing.T) {
+	r := rng()
+	seg := func() string {
+		return []string{"a", "api", "v1", "x.y", "A_b", ".", "..", ""}[r.Intn(8)]
+	}
+	client := func(base, method string) string {
+		return strings.TrimSuffix(path.Join("/", base), "/") + "/" + strings.TrimPrefix(method, "/")
+	}
+	for i := 0; i < 20000; i++ {
+		base := "/"
+		for n := r.Intn(4); n > 0; n-- {
+			base += seg() + "/"
+		}
+		if r.Intn(2) == 0 {
+			base = strings.TrimSuffix(base, "/")
+			if base == "" {
+				base = "/"
+			}
+		}
+		svc, m := "pkg.Svc", "Method"
+		route := path.Join(base, svc+"/"+m)
+		if got := client(base, "/"+svc+"/"+m); got != route {
+			t.Fatalf("base %q: client path %q, server route %q", base, got, route)
+		}
+		for _, bad := range []string{"/x/../" + svc + "/" + m, "/" + svc + "//" + m, "/" + svc + "/./" + m, "/" + svc + "/" + m + "/", "//" + svc + "/" + m} {
+			if got := client(base, bad); got == route {
+				t.Fatalf("base %q: the unregistered name %q is mapped onto the route %q", base, bad, route)
+			}
+		}
+	}
+}
